@@ -6,6 +6,7 @@ import (
 	"fmt"
 	"math/rand"
 	"os"
+	"strings"
 	"sync"
 	"sync/atomic"
 	"time"
@@ -38,7 +39,12 @@ func cmdM3(args []string) error {
 	alpha := fs.String("alphabet", "routing", "event alphabet")
 	cancel := fs.String("cancel", "safe", "cancellation: none, safe (only after the requests were sent), any")
 	faults := fs.Bool("faults", false, "stop and restart servers at random while the workload runs")
+	methodsFlag := fs.String("methods", "", "comma-separated subset of the methods (default: all)")
 	fs.Parse(args)
+	methods := m3Methods
+	if *methodsFlag != "" {
+		methods = strings.Split(*methodsFlag, ",")
+	}
 	alphabet := progAlphabets[*alpha]
 	all := *alpha == "all"
 	if alphabet == nil && !all {
@@ -119,7 +125,7 @@ func cmdM3(args []string) error {
 				go func() {
 					defer wg.Done()
 					for i := 0; i < *ncalls; i++ {
-						m := m3Methods[grng.Intn(len(m3Methods))]
+						m := methods[grng.Intn(len(methods))]
 						size := 1 + grng.Intn(3)
 						k := 1 + grng.Intn(size)
 						how := "none"
@@ -241,6 +247,11 @@ func cmdM3(args []string) error {
 		go func() { env.Close(); close(closed) }()
 		select {
 		case <-closed:
+			// the goroutines of the closed manager end asynchronously; their last events must not land in
+			// the next run's trace
+			for i := 0; i < 1000 && drive.LibGoroutines() > 0; i++ {
+				time.Sleep(5 * time.Millisecond)
+			}
 		case <-time.After(30 * time.Second):
 			fmt.Println("m3: Close did not return within 30 s; stopping")
 			run = *runs
